@@ -221,7 +221,7 @@ func Bytes(t *rapid.T, lim Limits, l string) ([]byte, string) {
 	case k < 25 && lim.Boundary:
 		n := rapid.SampledFrom(boundaryLens).Draw(t, l+"-blen")
 		return patternBytes(t, n), "varint-len-boundary"
-	case k == 25 && lim.Big && Pick(t, l+"-big", 1) == 0:
+	case k == 25 && lim.Big && Pick(t, l+"-big", 5) == 0: // 1/2048 per byte field; TestVF_C13_LargePayload covers the large sizes
 		n := rapid.SampledFrom(bigLens).Draw(t, l+"-biglen")
 		return patternBytes(t, n), "2MiB"
 	default:
@@ -331,7 +331,7 @@ func Entry(t *rapid.T, lim Limits, m *Meta) pb.Entry {
 		e.ClientID, e.SeriesID, e.RespondedTo = f("clientid"), f("seriesid"), f("respondedto")
 		e.Type = rapid.SampledFrom([]pb.EntryType{pb.MetadataEntry, math.MaxInt32, math.MinInt32, -1, 1 << 28, 1 << 21}).Draw(t, "maxtype")
 		n := rapid.SampledFrom([]int{16384, 127, 128, 16383, 1, 0}).Draw(t, "maxcmdlen")
-		if lim.Big && Pick(t, "maxcmd-big", 3) == 0 {
+		if lim.Big && Pick(t, "maxcmd-big", 6) == 0 {
 			n = 1 << 21
 		}
 		if n > 0 {
